@@ -304,7 +304,7 @@ fn parse_args() -> Args {
     while i < v.len() {
         let nxt = |i: usize| v.get(i + 1).cloned().unwrap_or_default();
         match v[i].as_str() {
-            "worker" | "check" | "list" | "selftest" => a.mode = v[i].clone(),
+            "worker" | "check" | "list" | "selftest" | "trace" => a.mode = v[i].clone(),
             "--prop" => { a.prop = nxt(i); i += 1; }
             "--tier" => { a.tier = nxt(i); i += 1; }
             "--seed" => { a.seed = nxt(i).parse().expect("--seed"); i += 1; }
@@ -334,6 +334,19 @@ pub fn main(world: &'static dyn World) -> ! {
             0
         }
         "worker" => worker(world, &a),
+        "trace" => {
+            // debugging aid: print the decoded trace of runs --from..--to of one batch
+            let batch = a.batch.clone().expect("--batch");
+            for idx in a.from..a.to.max(a.from + 1) {
+                let seed = run_seed(a.seed, world.name(), &a.prop, &batch, idx);
+                let (rep, _rec) = run_one(world, &a.prop, &batch, Tape::generate(seed));
+                println!("== run {} seed {:016x} nontrivial={} faults={:?} probes={:?}", idx, seed, rep.nontrivial, rep.faults, rep.probes);
+                for l in &rep.trace {
+                    println!("  {}", l);
+                }
+            }
+            0
+        }
         _ => {
             if let Some(r) = &a.replay {
                 replay(world, &a, r)
@@ -522,7 +535,7 @@ fn check(world: &'static dyn World, a: &Args) -> i32 {
             let from = n * k / jobs;
             let to = n * (k + 1) / jobs;
             if to > from {
-                children.push(spawn_worker(a, b.name, from, to, false, false));
+                children.push(spawn_worker(a, b.name, from, to, false, a.no_min || std::env::var("VSIM_NO_MIN").is_ok()));
             }
         }
         let rows = match collect(children, b.name) {
